@@ -568,6 +568,30 @@ func ruleProgramReadOnly(c *Ctx, rule string) {
 				addr, kind = x.Addr, "store"
 			case *ssa.MapUpdate:
 				addr, kind = x.Map, "map update"
+			case *ssa.Call:
+				// `kept := program.Bytecode[:0]; kept = append(kept, c)`: the in-place filter writes into the array of the list it
+				// was cut from
+				if bi, ok := x.Call.Value.(*ssa.Builtin); ok && bi.Name() == "append" && len(x.Call.Args) > 0 {
+					for _, leaf := range phiLeaves(x.Call.Args[0], nil) {
+						sl, ok := leaf.(*ssa.Slice)
+						if !ok {
+							continue
+						}
+						why := ""
+						if w, ok := po[sl.X]; ok {
+							why = w
+						} else if w, ok := po[traceAddr(sl.X).Root]; ok && !traceAddr(sl.X).local() {
+							why = w
+						}
+						if why != "" {
+							viol = append(viol, fmt.Sprintf("append to %s, a re-slice of a list of the compiled program (%s): the elements are written into the program's own array [%s]", exprStr(leaf), why, c.pos(in.Pos())))
+							if firstPos == token.NoPos {
+								firstPos = in.Pos()
+							}
+						}
+					}
+				}
+				return
 			default:
 				return
 			}
